@@ -12,6 +12,7 @@ hold gates while the other processes queue on the lock.
 Oracle: every concurrent build exits 0 and its binary is byte-identical to the binary the same
 command produces alone (isolated reference build).
 """
+import os
 import sys
 import time
 
@@ -132,6 +133,82 @@ def main(tier, seed):
         if left:
             chk.extra.setdefault("tmp_leftovers", []).append([name, left])
         rmtree(root)
+
+    # ---- B2: TLC's interleaving "another process rebuilds the linker between this process's version check
+    # and its use of the linker" (only possible if Mutex / LockHolder is broken).  The other process is a garble
+    # of ANOTHER version, played by the harness: it follows the protocol (takes the flock on link.lock) and then
+    # does what PatchLinker does on a version mismatch - replace link and its stamp.  The real garble is held at
+    # its tool-run event of the link step, i.e. after the check and right before it executes the linker.
+    root = work / "foreign-rebuild"
+    shared = Sandbox(root / "shared", template=True)
+    set_linker_state(shared.gcache, tool, "cur", "cur")
+    src = write_proto(root / "src", 0)
+    rwarm = shared.garble(["build", "-o", str(root / "prog-warm"), "."], cwd=src, timeout=1500)
+    if rwarm.returncode != 0:
+        raise Inconclusive(f"warming build of the foreign-rebuild scenario failed: {rwarm.stderr[-1500:]}")
+    mainfile = src / "main.go"
+    mainfile.write_text(mainfile.read_text().replace('"main-record"', '"main-record-2"', 1))   # only main is recompiled, then linked
+    gatedir = root / "gate"
+    gatedir.mkdir()
+    trace = root / "trace.ndjson"
+    res = {}
+
+    def held_build():
+        res["r"] = shared.garble(["build", "-o", str(root / "prog"), "."], cwd=src, trace=trace, ident="P0", timeout=1500,
+                                 env={"GARBLE_VERIF_GATE": "hold@tool-run#2", "GARBLE_VERIF_GATE_DIR": str(gatedir)})
+
+    th = threading.Thread(target=held_build)
+    th.start()
+    base = gatedir / "hold.tool-run.2"
+    deadline = time.time() + 900
+    while time.time() < deadline and not Path(str(base) + ".reached").exists() and th.is_alive():
+        time.sleep(0.1)
+    reached = Path(str(base) + ".reached").exists()
+    held_is_link = False
+    got_lock = None
+    if reached:
+        evs = read_trace(trace)
+        runs = [e for e in evs if e["ev"] == "tool-run"]
+        held_is_link = len(runs) == 2 and runs[-1].get("tool") == "link"
+        if held_is_link:
+            import fcntl
+            lockf = open(shared.gcache / "tool" / "link.lock", "a+")
+            try:
+                fcntl.flock(lockf, fcntl.LOCK_EX | fcntl.LOCK_NB)
+                got_lock = True
+            except OSError:
+                got_lock = False
+            if got_lock:
+                # the foreign-version garble now owns the cache: it installs its own linker and stamp
+                standin = (tool / "old-linker-standin").read_bytes()
+                tmpf = shared.gcache / "tool" / "link.foreign"
+                tmpf.write_bytes(standin)
+                tmpf.chmod(0o755)
+                os.replace(tmpf, shared.gcache / "tool" / "link")
+                (shared.gcache / "tool" / "link.version").write_bytes(b"go1.0.0 some-other-patch-version\n")
+                fcntl.flock(lockf, fcntl.LOCK_UN)
+            lockf.close()
+    Path(str(base) + ".release").write_text("go\n")
+    th.join()
+    r = res.get("r")
+    witness = {"scenario": "foreign-version-rebuild-in-link-window", "init": ["cur", "cur"], "lock_free_while_linker_about_to_run": got_lock}
+    chk.case(["foreign-version-rebuild-in-link-window"], sample=witness, nontrivial=bool(held_is_link))
+    chk.extra["foreign_rebuild_scenario"] = {"held_at_link": held_is_link, "harness_got_lock": got_lock, "rc": getattr(r, "returncode", None)}
+    if not held_is_link:
+        raise Inconclusive(f"foreign-rebuild scenario: the build was not held at its link step (reached={reached})")
+    files = {"trace.ndjson": trace, "stderr.txt": (r.stderr[-4000:] if r else "")}
+    if got_lock:
+        # the real garble went on to execute whatever was installed under it
+        if (shared.gcache / "tool" / "old-linker-used").exists() or r is None or r.returncode != 0:
+            chk.violation(dict(witness, kind="foreign-linker-used"), files,
+                          what="another garble (other version) could take link.lock and replace the linker while this build was between its version "
+                               "check and the execution of the linker; the build then executed the foreign linker / failed: " + (r.stderr[-200:] if r else ""))
+        else:
+            chk.violation(dict(witness, kind="lock-not-held"), files,
+                          what="link.lock was free while the build was about to execute the cached linker (the foreign linker installed meanwhile was not executed)")
+    elif r is None or r.returncode != 0:
+        chk.violation(dict(witness, kind="build-failed"), files, what=f"held build failed: {r.stderr[-300:] if r else ''}")
+    rmtree(root)
 
     # binding self-test: a corrupted trace must be rejected
     if first_trace is not None:
